@@ -69,8 +69,10 @@ func (cbm *callbackMgr[T]) runCBs(ctx context.Context) {
 	newCfgCBs := make([]*userCallbackHandle[T], 0)
 	lastSerial := uint64(0)
 	lastVersion := (*T)(nil)
+	defer verifNote(ctx, "cb.exited")
 	for {
 		var ev userCallbackEvent
+		verifPoint(ctx, "cb.idle")
 		select {
 		case ev = <-cbm.ch:
 		case <-cbm.done:
@@ -84,10 +86,12 @@ func (cbm *callbackMgr[T]) runCBs(ctx context.Context) {
 		}
 		switch e := ev.(type) {
 		case *watchErrorEvent[T]:
+			verifPoint(ctx, "cb.recv", "kind", "werr")
 			if cbm.p.OnWatchedError != nil {
 				cbm.p.OnWatchedError(ctx, e.err, e.oldConfig, e.newConfig)
 			}
 		case *newConfigEvent[T]:
+			verifPoint(ctx, "cb.recv", "kind", "newcfg", "serial", e.serial, "sup", e.globalCBsSuppressed)
 			lastSerial = e.serial
 			lastVersion = e.newConfig
 			if cbm.p.OnNewConfig != nil && !e.globalCBsSuppressed {
@@ -102,6 +106,7 @@ func (cbm *callbackMgr[T]) runCBs(ctx context.Context) {
 				cbh.cb(ctx, e.oldConfig, e.newConfig)
 			}
 		case *userCallbackRegistration[T]:
+			verifPoint(ctx, "cb.recv", "kind", "reg", "tok", e.serial.s, "tokvalid", e.serial.cfg != nil)
 			// Serial values are assigned sequentially, so make sure we don't deliver an
 			// older config if we've fallen behind.
 			if e.serial.cfg != nil && e.serial.s < lastSerial {
@@ -110,6 +115,7 @@ func (cbm *callbackMgr[T]) runCBs(ctx context.Context) {
 			// add this callback to the set of callbacks
 			newCfgCBs = append(newCfgCBs, e.handle)
 		case *userCallbackUnregister[T]:
+			verifPoint(ctx, "cb.recv", "kind", "unreg")
 			removed := make([]*userCallbackHandle[T], 0, len(newCfgCBs))
 			for _, cb := range newCfgCBs {
 				if e.handle == cb {
@@ -120,6 +126,7 @@ func (cbm *callbackMgr[T]) runCBs(ctx context.Context) {
 			}
 			newCfgCBs = removed
 			close(e.done)
+			verifNote(ctx, "cb.unregd")
 		default:
 			panic(fmt.Errorf("unknown type %T for user callback event", ev))
 		}
